@@ -39,6 +39,9 @@ class Contract:
         self.pure = kw.pop("pure", False)
         self.max_paths = kw.pop("max_paths", 4000)
         self.ensures_names = kw.pop("ensures_names", None)
+        # clauses that follow from requires + ensures alone (proved in a clean context that
+        # contains only those, not by executing the code); assumed at call sites like ensures
+        self.derived: list[str] = kw.pop("derived", [])
         self.extra = kw
         if kw:
             unknown = set(kw) - {"doc", "known", "not_decided", "denominators"}
@@ -415,7 +418,7 @@ class Registry:
         fr.locals["result"] = result
         if c.post_setup:
             c.post_setup(I, fr)
-        for src in c.ensures:
+        for src in list(c.ensures) + list(c.derived):
             self.assume_clause(I, self.eval_clause(I, src, fr))
         return result
 
